@@ -35,7 +35,7 @@ func checkC11(c *Ctx) {
 			RequireFacts(c, p, "C11.guard", fn, AcceptNilErr, nil, []Req{
 				{"NonEmpty(p)", `^0 != len\(p0\)$`},
 				{"Fits(p,SRS)", `^len\(p0\) <= len\(p2\.G1\)$`},
-				{"quotient-committed-or-zero", `^noerr Commit\(dividePolyByXminusA\(|^0 == len\(dividePolyByXminusA\(`},
+				{"quotient-committed-or-zero", `^noerr Commit\(dividePolyByXminusA\(|^0 == len\(dividePolyByXminusA\(|^1 == len\(p0\)$|^len\(p0\) == 1$|^len\(p0\) <= 1$|^len\(p0\) < 2$`}, // a constant polynomial has the zero quotient
 			})
 		}
 		if fn := get("Verify"); fn != nil {
